@@ -247,7 +247,7 @@ class Eval(object):
         for s in stmts:
             if isinstance(s, ast.Expr) and isinstance(s.value, ast.Constant):
                 continue
-            if isinstance(s, ast.Assert):
+            if isinstance(s, (ast.Assert, ast.Pass)):
                 continue
             if isinstance(s, ast.Assign) and len(s.targets) == 1:
                 t = s.targets[0]
